@@ -430,5 +430,9 @@ def run(ctx, tier):
     I2 = make_interp(ctx.model, modular=False)
     I2.merge_ifs = False
     centre_rules(ctx, I2)
+    from .rules_c19 import tokeniser_premise
+    tokeniser_premise(ctx)
+    from .rules_c08 import frame_premise
+    frame_premise(ctx)
     ctx.assume('exact real arithmetic and exact atan2/cos/sin: the floating-point values of the samples are NOT decided')
     ctx.assume('absolute positioning (the quantifier of the property); relative-mode arcs are a recorded finding of C08')
